@@ -2,11 +2,15 @@
 
 Runtime monitor over an enumerated matrix:
 
-    object state (how the object was obtained/changed inside the session)
-  x session ending (commit, manual commit, rollback(), exception, allowed exception, failing commit)
+    object state (how the object was obtained/changed inside the session; what the session did before ending:
+                  nothing at all, only created objects, only unpickled objects -- these never open a connection --,
+                  only reads, flushed writes, unflushed writes)
+  x session ending (commit, manual commit, rollback(), exception, allowed exception, failing commit,
+                    nested db_session ended by the outer exit normally / by an exception)
   x strict / non-strict  x  decorator / context-manager form
   x context of the later use (outside any session | inside a NEW, unrelated db_session)
-  x operation (every read, write, load, flush, collection and module-level call of the public API)
+  x operation (every read, write, load, flush, collection and module-level call of the public API, plus the object
+               used by the current context as a query argument or as relationship value of a new object)
 
 For every cell the REAL code runs on a SQLite file behind the DB-API recorder (E3).  Just before the session ends
 the harness records which attribute values / collections are loaded and their values (without triggering loads).
@@ -41,7 +45,8 @@ META = {
                   'other schemas.',
     'level_note': 'Trusted: the in-session recording reads obj._vals_/SetData.is_fully_loaded (documented by use) to '
                   'know what is loaded without loading; sqlite3 raw dumps; the DB-API recorder.',
-    'rule': 'cells of the matrix (state, ending, strict, form, context, operation); a cell is distinct by that tuple '
+    'rule': 'cells of the matrix (state incl. never-connected sessions, ending incl. nested sessions, strict, form, '
+            'context, operation); a cell is distinct by that tuple '
             'and non-trivial when the operation touches the object (module-level calls without an object are '
             'trivial); the seed permutes the order of operations applied to one detached object (quick) and the '
             'fixture values',
@@ -61,8 +66,8 @@ META = {
     'shims': [],
     'exhaustive_tiers': ['quick', 'thorough'],
 }
-SHARDS = {'quick': 1, 'thorough': 8}
-SHARD_TIMEOUT = {'quick': 300, 'thorough': 900}
+SHARDS = {'quick': 1, 'thorough': 16}
+SHARD_TIMEOUT = {'quick': 300, 'thorough': 1500}
 
 F_ISEMPTY = 'C32-ISEMPTY-NO-LIVENESS-CHECK'
 F_FLUSH = 'C32-OBJ-FLUSH-ASSERTS'
@@ -274,10 +279,40 @@ def _states():
     @state
     def st_passport_required_ref(E):
         return E.Passport[1], ()
+    # --- sessions that never touch the database before they end (no query, no flush: no connection is opened) ---
+    @state
+    def st_nc_created(E):
+        E.same = {'Tag': [E.Tag(id=31, label='t31'), E.Tag(id=33, label='t33')], 'Group': [E.Group(id=22, name='g22')],
+                  'Person': [E.Person(id=13, name='n13')]}
+        p = E.Person(id=10, name='n10', age=5, bio='bb', code='c10', group=E.Group(id=21, name='g21'),
+                     tags=[E.same['Tag'][0]])
+        return p, 'ALL'
+    @state
+    def st_nc_created_minimal(E):
+        E.same = {'Tag': [E.Tag(id=31, label='t31')], 'Group': [E.Group(id=22, name='g22')],
+                  'Person': [E.Person(id=13, name='n13')]}
+        return E.Person(id=11, name='n11'), 'ALL'
+    @state
+    def st_nc_created_group(E):
+        E.same = {'Tag': [E.Tag(id=31, label='t31')], 'Group': [E.Group(id=22, name='g22')],
+                  'Person': [E.Person(id=13, name='n13')]}
+        g = E.Group(id=21, name='g21', note='nn', members=[E.Person(id=12, name='n12')])
+        return g, 'ALL'
+    @state
+    def st_nc_unpickled(E):
+        E.same = {k: [pickle.loads(b) for b in v] for k, v in E.blobs['same'].items()}
+        return pickle.loads(E.blobs['main']), ()
+    @state
+    def st_nc_nothing(E):
+        E.same = {'Tag': [], 'Group': [], 'Person': []}
+        return None, ()
     return S
 
-ENDINGS = ['commit', 'manual_commit', 'rollback', 'exception', 'allowed_exception', 'commit_error']
-COMMITTED = ('commit', 'manual_commit', 'allowed_exception')
+NEVER_CONNECTS = ('nc_created', 'nc_created_minimal', 'nc_created_group', 'nc_unpickled', 'nc_nothing')
+
+ENDINGS = ['commit', 'manual_commit', 'rollback', 'exception', 'allowed_exception', 'commit_error',
+           'nested_commit', 'nested_exception']
+COMMITTED = ('commit', 'manual_commit', 'allowed_exception', 'nested_commit')
 
 class BodyError(Exception):
     pass
@@ -325,55 +360,69 @@ def build(env, state, ending, strict, form):
     S.state, S.ending, S.strict, S.form = state, ending, strict, form
     holder = {}
     def body():
-        # companions from the same session (arguments of the operations); none of them touches a collection
-        holder['same'] = {'Tag': [env.Tag[1], env.Tag[3]], 'Group': [env.Group[2]], 'Person': [env.Person[3]]}
-        obj, dirty = fn(env)
+        if state in NEVER_CONNECTS:
+            obj, dirty = fn(env)                   # companions are made by the state itself, without the database
+            holder['same'] = env.same
+        else:
+            # companions from the same session (arguments of the operations); none of them touches a collection
+            holder['same'] = {'Tag': [env.Tag[1], env.Tag[3]], 'Group': [env.Group[2]], 'Person': [env.Person[3]]}
+            obj, dirty = fn(env)
         if ending == 'manual_commit': commit()
         if ending == 'commit_error': env.Misc(id=1, v='dup')
-        rec = record(obj)
         live = {}                                  # outcome of pure (non-loading) serialisation while alive
-        live['obj.pickle_dumps'] = _try(lambda: pickle.dumps(obj))
-        for a in type(obj)._attrs_:
-            if a.is_collection and rec[a.name][0] and obj._status_ not in ('marked_to_delete', 'deleted'):
-                live['coll.pickle.' + a.name] = _try(lambda: pickle.dumps(getattr(obj, a.name)))
-        holder.update(obj=obj, dirty=dirty, rec=rec, repr=repr(obj), pk=obj.get_pk(),
-                      live_status=obj._status_, live=live)
+        if obj is None:
+            holder.update(obj=None, dirty=(), rec={}, repr=None, pk=None, live_status=None, live=live)
+        else:
+            rec = record(obj)
+            live['obj.pickle_dumps'] = _try(lambda: pickle.dumps(obj))
+            for a in type(obj)._attrs_:
+                if a.is_collection and rec[a.name][0] and obj._status_ not in ('marked_to_delete', 'deleted'):
+                    live['coll.pickle.' + a.name] = _try(lambda: pickle.dumps(getattr(obj, a.name)))
+            holder.update(obj=obj, dirty=dirty, rec=rec, repr=repr(obj), pk=obj.get_pk(),
+                          live_status=obj._status_, live=live)
         if ending == 'rollback': rollback()
-        if ending in ('exception', 'allowed_exception'): raise BodyError()
+        if ending in ('exception', 'allowed_exception', 'nested_exception'): raise BodyError()
     kw = {'strict': strict}
     if ending == 'allowed_exception': kw['allowed_exceptions'] = [BodyError]
+    nested = ending.startswith('nested_')
+    env.rec.clear()
     try:
         if form == 'ctx':
-            with db_session(**kw): body()
+            with db_session(**kw):
+                if nested:
+                    with db_session(**kw): body()  # the object's session is the inner one; only the outer exit ends it
+                else: body()
         else:
-            db_session(**kw)(body)()
+            inner = db_session(**kw)(body)
+            (db_session(**kw)(lambda: inner()) if nested else inner)()
         S.end_exc = None
     except BaseException as e:
         S.end_exc = type(e).__name__
     if 'obj' not in holder: raise AssertionError('state builder failed: %s %r' % (state, S.end_exc))
-    expected_exc = {'exception': 'BodyError', 'allowed_exception': 'BodyError',
+    expected_exc = {'exception': 'BodyError', 'allowed_exception': 'BodyError', 'nested_exception': 'BodyError',
                     'commit_error': 'TransactionIntegrityError'}.get(ending)
     assert S.end_exc == expected_exc, (state, ending, S.end_exc)
+    S.connected = any(e['kind'] == 'connect' or e['kind'] in ('execute', 'executemany') for e in env.rec.events)
     S.obj, S.rec, S.repr, S.pk = holder['obj'], holder['rec'], holder['repr'], holder['pk']
-    S.cls = type(S.obj).__name__
+    S.cls = type(S.obj).__name__ if S.obj is not None else None
     S.same = holder['same']
     S.committed = ending in COMMITTED
-    S.status = S.obj._status_
+    S.status = S.obj._status_ if S.obj is not None else None
     S.live_status = holder['live_status']
     S.live = holder['live']
     d = holder['dirty']
-    S.dirty = set(a.name for a in type(S.obj)._attrs_) if d == 'ALL' else set(d)
+    S.dirty = set() if S.obj is None else (set(a.name for a in type(S.obj)._attrs_) if d == 'ALL' else set(d))
     S.deleted = S.status in ('deleted', 'marked_to_delete', 'cancelled')
     # Recording happens before the flush that an implicit commit performs at exit.  By design the INSERT of a created
     # object forgets attributes whose value is None ("the value may be changed in the DB"), so these are not loaded
     # any more when the session ends: reading them may need the database.
     S.maybe_unloaded = set()
-    if S.live_status == 'created' and S.committed:
+    if S.live_status == 'created' and S.committed and S.obj is not None:
         S.maybe_unloaded = set(a.name for a in type(S.obj)._attrs_ if not a.is_collection and a.columns
                                and a.pk_offset is None and S.rec[a.name] == [True, None])
     S.dump = env.dump()
     S.truth = Truth(S.dump)
-    S.snap = snapshot(S.obj)
+    S.snap = snapshot(S.obj) if S.obj is not None else None
     return S
 
 def donors(env):
@@ -382,6 +431,10 @@ def donors(env):
     env.restore()
     with db_session:
         d = {'Person': [env.Person[i] for i in (1, 2, 3, 4)], 'Passport': [env.Passport[1]]}
+    with db_session:      # pickles of loaded objects: a later session can obtain objects from them without any query
+        env.blobs = {'main': pickle.dumps(env.Person[4]),
+                     'same': {'Tag': [pickle.dumps(env.Tag[1]), pickle.dumps(env.Tag[3])],
+                              'Group': [pickle.dumps(env.Group[1])], 'Person': [pickle.dumps(env.Person[3])]}}
     return d
 
 # ---------------------------------------------------------------------------------------------------------------
@@ -391,16 +444,22 @@ class Op(object):
     def __init__(self, id, cat, run, needs=(), expect=None, coll=None, nontrivial=True):
         self.id, self.cat, self.run, self.needs, self.expect, self.coll = id, cat, run, tuple(needs), expect, coll
         self.nontrivial = nontrivial
+        self.arg_unloaded = False
 
 def coll_truth(S, name):
     try: return S.truth.attr(S.cls, S.pk, name)
     except KeyError: return []
 
 def ops_for(S, env, D):
-    """Every operation for this subject.  Arguments that must be objects are taken from the subject's own session
-    (S.same), from its loaded collections, or from the donor session D."""
-    from pony.orm import flush, commit, rollback
+    """Every operation for this subject (a session that left no object behind only gets the module-level calls)."""
     ops = []
+    if S.obj is not None: _object_ops(S, env, D, ops)
+    _module_ops(env, ops)
+    return ops
+
+def _object_ops(S, env, D, ops):
+    """Arguments that must be objects are taken from the subject's own session (S.same), from its loaded
+    collections, or from the donor session D."""
     o = S.obj
     entity = type(o)
     item_cls = {'tags': 'Tag', 'members': 'Person', 'people': 'Person'}
@@ -453,10 +512,17 @@ def ops_for(S, env, D):
             R('plus', lambda: len(c() + []), ('colllen', n))
             R('minus', lambda: len(c() - []), ('colllen', n))
             R('pickle', lambda: pickle.dumps(c()), ('const', ['bytes']))
+            # for a one-to-many collection the answer is read from the ITEM's reference attribute: if that is not
+            # loaded on the item (e.g. a None forgotten by the item's INSERT) the read needs the database
+            def ready(m):
+                r = attr.reverse
+                return r.is_collection or (m._vals_ is not None and r in m._vals_)
             if member is not None:
                 R('contains_member', lambda m=member: m in c(), ('const', True))
+                ops[-1].arg_unloaded = not ready(member)
             if nonmember is not None:
                 R('contains_nonmember', lambda m=nonmember: m in c(), ('const', False))
+                ops[-1].arg_unloaded = not ready(nonmember)
             ops.append(Op('coll.str.' + n, 'read_pk', lambda: type(str(c())).__name__, expect=('const', 'str')))
             ops.append(Op('coll.repr.' + n, 'read_pk', lambda: type(repr(c())).__name__, expect=('const', 'str')))
             # queries built from the collection
@@ -524,6 +590,29 @@ def ops_for(S, env, D):
     ops.append(Op('obj.flush', 'write' if pending else 'noop_write', lambda: o.flush()))
     ops.append(Op('obj.load', 'write' if not everything else 'noop_write', lambda: o.load()))
     ops.append(Op('obj.load_loaded_attr', 'noop_write', lambda: o.load(default_attrs[1])))
+    # the object used by the CURRENT context: as a query argument (a new query of that context, like the collection
+    # queries) and as a relationship value of a new object (which would change the detached object's reverse side)
+    from pony.orm import select
+    E_ = entity
+    Q = lambda id, f, expect: ops.append(Op(id, 'query', f, expect=expect))
+    Q('use.query_arg_eq', lambda: sorted(pkof(x) for x in select(x for x in E_ if x == o)), ('rowpk', None))
+    Q('use.query_arg_get', lambda: sorted(pkof(x) for x in E_.select(lambda x: x == o)), ('rowpk', None))
+    if S.cls == 'Group':
+        Q('use.query_ref', lambda: sorted(pkof(x) for x in select(x for x in env.Person if x.group == o)),
+          ('refpks', ('Person', 'group')))
+        Q('use.query_kwarg', lambda: sorted(pkof(x) for x in env.Person.select(group=o)), ('refpks', ('Person', 'group')))
+        ops.append(Op('use.new_object_ref', 'write', lambda: env.Person(id=61, name='n61', group=o)))
+    elif S.cls == 'Person':
+        Q('use.query_ref', lambda: sorted(pkof(x) for x in select(x for x in env.Passport if x.owner == o)),
+          ('refpks', ('Passport', 'owner')))
+        Q('use.query_kwarg', lambda: sorted(pkof(x) for x in env.Passport.select(owner=o)), ('refpks', ('Passport', 'owner')))
+        ops.append(Op('use.new_object_ref', 'write', lambda: env.Passport(id=60, number='n60', owner=o)))
+        ops.append(Op('use.new_object_coll', 'write', lambda: env.Tag(id=63, label='l63', people=[o])))
+    elif S.cls == 'Passport':
+        ops.append(Op('use.new_object_ref', 'write', lambda: env.Person(id=62, name='n62', passport=o)))
+
+def _module_ops(env, ops):
+    from pony.orm import flush, commit, rollback
     # module level / database level
     M = lambda id, f: ops.append(Op(id, 'module', f, nontrivial=False))
     M('module.flush', lambda: flush())
@@ -532,7 +621,6 @@ def ops_for(S, env, D):
     M('db.flush', lambda: env.db.flush())
     M('db.commit', lambda: env.db.commit())
     M('db.rollback', lambda: env.db.rollback())
-    return ops
 
 def _iadd(o, n, m):
     c = getattr(o, n); c += m
@@ -553,6 +641,8 @@ def expected(S, op, source):
         else: v = S.truth.attr(S.cls, S.pk, n)
         return v
     if kind == 'const': return norm(arg)
+    if kind == 'rowpk': return [S.pk] if S.truth.row(S.cls, S.pk) is not None else []
+    if kind == 'refpks': return sorted(r['id'] for r in S.truth.rows[arg[0]] if r[arg[1]] == S.pk)
     if kind == 'attr': return attr_val(arg)
     if kind in ('collpks', 'collpks_truth'): return attr_val(arg) if kind == 'collpks' else S.truth.attr(S.cls, S.pk, arg)
     if kind in ('colllen', 'colllen_truth'):
@@ -620,7 +710,7 @@ def judge(ctx, S, op, where, outcome, stmts, nevents, db_changed, snap_after):
         return bad('unexpected-exception')
 
     if cat in ('read', 'read_pk'):
-        needs_loaded = all(S.rec[n][0] and n not in S.maybe_unloaded for n in op.needs)
+        needs_loaded = all(S.rec[n][0] and n not in S.maybe_unloaded for n in op.needs) and not op.arg_unloaded
         maybe = [n for n in op.needs if n in S.maybe_unloaded]
         dirty = bool(set(op.needs) & S.dirty)
         if 'pickle' in op.id and S.status in ('created', 'modified'): dirty = True   # pending object: not storable
@@ -679,8 +769,8 @@ def judge(ctx, S, op, where, outcome, stmts, nevents, db_changed, snap_after):
     if over:
         ctx.count('write.session_is_over' if cat == 'write' else 'bracket.noop_refused'); return None
     if deleted_err: ctx.count('bracket.deleted_object_error'); return None
-    if gen and op.id.startswith('coll.create.'):
-        ctx.count('bracket.%s.create' % gen); return None
+    if gen and (op.id.startswith('coll.create.') or op.id.startswith('use.new_object')):
+        ctx.count('bracket.%s.%s' % (gen, 'create' if op.id.startswith('coll.') else 'new_object')); return None
     if (op.id == 'obj.flush' and isinstance(exc, AssertionError)
             and S.status in ('created', 'modified', 'marked_to_delete')):
         ctx.count('finding.obj_flush_assertion')
@@ -722,7 +812,7 @@ def run_cell(ctx, env, S, op, where):
     if nevents:                      # every route to the database goes through the recorder
         db_changed = env.dump() != S.dump
         ctx.count('dumps_after_dbapi_activity')
-    snap_after = snapshot(S.obj)
+    snap_after = snapshot(S.obj) if S.obj is not None else None
     ctx.case(['cell', S.state, S.ending, S.strict, S.form, where, op.id], nontrivial=op.nontrivial,
              sample={'state': S.state, 'ending': S.ending, 'strict': S.strict, 'where': where, 'op': op.id,
                      'outcome': outcome[1] if outcome[0] == 'val' else type(outcome[1]).__name__})
@@ -767,6 +857,8 @@ def run(ctx):
             ctx.subrng('order', rnd, *sc, where).shuffle(order)
             ctx.count('scenarios')
             ctx.count('status.%s' % S.status)
+            ctx.count('session.connected' if S.connected else 'session.never_connected')
+            ctx.count('ending.' + S.ending)
             final_dump_needed = True
             for i in order:
                 ok = run_cell(ctx, env, S, ops[i], where)
@@ -793,6 +885,7 @@ def run(ctx):
     ctx.floor('write.session_is_over', int(30000 * per * k))
     ctx.floor('read.session_is_over', int(10000 * per * k))
     ctx.floor('where.new_active', int(30000 * per * k))
+    ctx.floor('session.never_connected', int(150 * per * (1.0 if ctx.nshards == 1 else 0.5)))
     ctx.floor('batch_dumps_compared', int(1500 * per * (1.0 if quick else 2.7)))
 
 
